@@ -26,6 +26,9 @@ type Clause struct {
 }
 
 type GhostStmt struct {
+	Kind   string // "" (ghost assignment) | "let" | "assert"
+	Name   string // let name
+	Clause *Clause
 	Site string // call-site name "callee.N" or "entry"/"return"
 	When string // "after" (default) | "before"
 	LHS  *E
@@ -105,6 +108,13 @@ func (c *Contract) AllTags() []string {
 	for _, cls := range c.LoopInv {
 		for _, cl := range cls {
 			for _, t := range cl.Tags {
+				m[t] = true
+			}
+		}
+	}
+	for _, g := range c.Ghost {
+		if g.Clause != nil {
+			for _, t := range g.Clause.Tags {
 				m[t] = true
 			}
 		}
@@ -237,7 +247,10 @@ func (cs *contractSet) parseFile(root, file string) error {
 		case "func":
 			key := pkg + "." + rest
 			if cs.contracts[key] != nil {
-				return fmt.Errorf("%s:%d: duplicate contract for %s", file, c.line, key)
+				// further clauses for a function already under contract
+				// (contracts may be grouped by property)
+				cur = cs.contracts[key]
+				continue
 			}
 			cur = &Contract{Key: key, Pkg: pkg, LoopInv: map[int][]*Clause{}, File: file, Line: c.line}
 			cs.contracts[key] = cur
@@ -321,6 +334,39 @@ func (cs *contractSet) parseFile(root, file string) error {
 			}
 			cur.LoopInv[n] = append(cur.LoopInv[n], cl)
 		case "at":
+			// at <site> [before|after] let name = expr
+			// at <site> [before|after] assert [tags] label: expr
+			if f := strings.Fields(rest); len(f) >= 3 && (f[1] == "let" || f[1] == "assert" || ((f[1] == "before" || f[1] == "after") && (f[2] == "let" || f[2] == "assert"))) {
+				gs := &GhostStmt{Site: f[0], When: "after"}
+				k := 1
+				if f[1] == "before" || f[1] == "after" {
+					gs.When = f[1]
+					k = 2
+				}
+				gs.Kind = f[k]
+				body := strings.TrimSpace(rest[strings.Index(rest, " "+f[k]+" ")+len(f[k])+2:])
+				gs.Src = body
+				if gs.Kind == "let" {
+					i := strings.Index(body, "=")
+					if i < 0 {
+						return fmt.Errorf("%s:%d: let needs =", file, c.line)
+					}
+					gs.Name = strings.TrimSpace(body[:i])
+					e, err := parseSpecExpr(strings.TrimSpace(body[i+1:]))
+					if err != nil {
+						return fmt.Errorf("%s:%d: %v", file, c.line, err)
+					}
+					gs.RHS = e
+				} else {
+					cl, err := parseClause(body, file, c.line)
+					if err != nil {
+						return err
+					}
+					gs.Clause = cl
+				}
+				cur.Ghost = append(cur.Ghost, gs)
+				continue
+			}
 			// at <site> [before] ghost [if cond ::] lv = expr
 			parts := strings.SplitN(rest, " ghost ", 2)
 			if len(parts) != 2 {
